@@ -580,8 +580,8 @@ class Calls(Exec):
             for v, q in zip(vars_, qs):
                 s.frame.loc[v] = VInt(q)
             if len(a) == 3:
-                lo = self.ev1(a[0], st).t
-                hi = self.ev1(a[1], st).t
+                lo = self.int_term(self.ev1(a[0], st), node)
+                hi = self.int_term(self.ev1(a[1], st), node)
                 rng = AND(qs[0] >= lo, qs[0] < hi)
             else:
                 rng = TRUE
@@ -693,6 +693,19 @@ class Calls(Exec):
             ya, yo, yn = str_parts(y)
             return VBool(AND(xa == ya, xo == yo, xn == yn))
         raise Unsupported('spec form ' + name, node)
+
+    def int_term(self, v, node=None):
+        "z3 term of an int-valued spec value; the None alternative of an optional int is excluded by the clause's guard"
+        if isinstance(v, VU):
+            nn = [(c, x) for c, x in v.alts if not isinstance(x, VNone)]
+            if nn and all(isinstance(x, (VInt, VBool)) for _, x in nn):
+                t = self.num(nn[-1][1])
+                for c, x in reversed(nn[:-1]):
+                    t = ITE(c, self.num(x), t)
+                return t
+        if isinstance(v, (VInt, VBool)):
+            return self.num(v)
+        raise Unsupported('integer expected in a quantifier bound, got %s' % v.kind, node)
 
     def holds(self, st, m, ch, node):
         "does `match` (a character or a predicate) accept the character-or-empty ch?"
